@@ -914,6 +914,7 @@ func main() {
 	n := flag.Int("n", 100, "number of histories")
 	blocks := flag.Int("blocks", 25, "max blocks per history")
 	out := flag.String("out", ".", "output directory")
+	idbase := flag.Int("idbase", 0, "id of the first history (shards of one run use disjoint ranges)")
 	flag.Parse()
 	r := rng.New(*seed)
 	inflight = *out + "/app.inflight"
@@ -941,7 +942,7 @@ func main() {
 		fx.Close()
 	}()
 	for i := 0; i < *n; i++ {
-		runHistory(r, i, *blocks, wo, wi)
+		runHistory(r, *idbase+i, *blocks, wo, wi)
 	}
 	js, _ := json.MarshalIndent(stats, "", " ")
 	_ = os.WriteFile(*out+"/app.stats.json", js, 0644)
@@ -1199,7 +1200,7 @@ func runHistory(r *rng.R, id, maxBlocks int, wo, wi *bufio.Writer) {
 			next := govTypes.ACL{}
 			h.handover = nil
 			drop := -1
-			if h.r.Chance(1, 6) {
+			if h.r.Chance(1, 3) {
 				drop = h.r.Intn(len(cur) + 1)
 			}
 			var parts []string
